@@ -220,3 +220,70 @@ def make_laws(cfg):
         return {'nontrivial': nontriv, 'tags': [], 'sample': None}
 
     return h
+
+
+def make_transpose_core(cfg):
+    """Transposition on the per-split function under the arbitrary global token order (the API-level
+    harness can only realise frequency-induced orders on tiny tables): set_sim_join(L, R) vs
+    set_sim_join(R, L), real kernel at a threshold grid."""
+    from . import h_core
+    measure = cfg['measure']
+
+    def h(c):
+        k = cfg['k']
+        Lt = scenario.build_table(c, 'L', cfg['nl'], k, cfg.get('kmin', 1), False, False, False)
+        Rt = scenario.build_table(c, 'R', cfg['nr'], k, cfg.get('kmin', 1), False, False, False)
+        thr = symdata.choice(c, 'thr', cfg['thresholds'])
+        op = symdata.choice(c, 'op', cfg.get('comp_ops', ['>=']))
+        s = dict(entry='set_sim_join', filter=None, measure=measure, kind='join', threshold=thr, comp_op=op,
+                 allow_empty=True, allow_missing=False, out_sim_score=True, n_jobs=1, l_key='id', r_key='id',
+                 l_attr='attr', r_attr='attr', l_out_attrs=None, r_out_attrs=None, l_out_prefix='l_',
+                 r_out_prefix='r_', tok_return_set=True, L=scenario.table_dict(Lt), R=scenario.table_dict(Rt))
+        s2 = dict(s, L=s['R'], R=s['L'])
+        tok = symdata.AbsTok(return_set=True)
+        b = dict(h_core.base_bindings())
+        for m in h_core.ORDER_USERS:
+            b[(m, 'gen_token_ordering_for_tables')] = h_core._identity_ordering
+        cols = ['id', 'attr', 'x', 'y']
+        fn = repo.mod('join.set_sim_join').set_sim_join
+
+        def detail(msg):
+            def mk(mdl):
+                return {'prop': 'C13', 'clause': 'transpose', 'msg': msg, 'harness': 'h_laws', 'law': 'transpose',
+                        'order': 'identity', 'scenario': scenario.concretize_scenario(dict(s, entry=MEASURE_JOIN[measure]), mdl),
+                        'scenario2': scenario.concretize_scenario(dict(s2, entry=MEASURE_JOIN[measure]), mdl)}
+            return mk
+        with repo.patched(b):
+            try:
+                A = fn(list(Lt.rows), list(Rt.rows), cols, cols, 'id', 'id', 'attr', 'attr', tok, measure, thr, op,
+                       True, None, None, 'l_', 'r_', True, False)
+                B = fn(list(Rt.rows), list(Lt.rows), cols, cols, 'id', 'id', 'attr', 'attr', tok, measure, thr, op,
+                       True, None, None, 'l_', 'r_', True, False)
+            except Exception as e:
+                msg = 'valid call raised %s: %s' % (type(e).__name__, e)
+                raise Violation(msg, detail(msg))
+        A = dict(((r[0], r[1]), r[2]) for r in oracle.Result.of(A).rows)
+        B = dict(((r[1], r[0]), r[2]) for r in oracle.Result.of(B).rows)
+        w = scenario.SymWorld()
+        lcell, rcell = _cells(Lt, Rt)
+        for lk in lcell:
+            for rk in rcell:
+                lt, rt = w.tokset(lcell[lk]), w.tokset(rcell[rk])
+                n, m = len(lt), len(rt)
+                if n == 0 and m == 0:
+                    continue
+                if n and m:
+                    o = ref.overlap_size(lt, rt)
+                    raw, rep = ref.raw_score(measure, n, m, o), ref.reported_score(measure, n, m, o)
+                    if bool(OPS[op](raw, thr)) != bool(OPS[op](rep, thr)):
+                        continue
+                pk = (lk, rk)
+                if (pk in A) != (pk in B) or (pk in A and not (A[pk] == B[pk])):
+                    msg = 'pair %r: join(A,B) gives %r, join(B,A) gives %r' % (pk, A.get(pk, 'absent'), B.get(pk, 'absent'))
+                    raise Violation('C13/transpose: ' + msg, detail(msg))
+        return {'nontrivial': len(A) > 0, 'tags': [], 'sample': None}
+
+    return h
+
+
+MEASURE_JOIN = {'JACCARD': 'jaccard_join', 'COSINE': 'cosine_join', 'DICE': 'dice_join'}
